@@ -31,7 +31,7 @@ ASSUMPTIONS = [
     'values are strings / integers / dates (the extended-JSON value encoding itself is C07)',
 ]
 BUDGET = {'quick': dict(examples=96, shards=16, seconds=80, chunk=6),
-          'thorough': dict(examples=1600, shards=16, seconds=1500, chunk=10)}
+          'thorough': dict(examples=1600, shards=16, seconds=1200, chunk=10)}
 
 
 @st.composite
@@ -95,6 +95,8 @@ def build_flow(case, cp_root, counter, fault=None):
                     if fault and fault[0] == where and fault[1] == ri and fault[2] == 'end':
                         raise ValueError('injected at %s end of resource' % where)
                 yield gen_rows()
+            if fault and fault[0] == where and fault[1] == 'pkg' and fault[2] == 'end':
+                raise ValueError('injected at %s after all resources' % where)
         return step
 
     def g(rows):
@@ -207,8 +209,24 @@ def check(case, ctx):
                 else:
                     raise Violation('failing-step-yields-successful-run', {'where': where, 'resource': ri, 'row': pos})
                 n_exc += 1
-                after(d, {'raising_step': where, 'resource': ri, 'row': pos})
+                had = after(d, {'raising_step': where, 'resource': ri, 'row': pos})
+                if had:
+                    raise Violation('checkpoint-committed-although-a-step-failed-while-it-was-written',
+                                    {'raising_step': where, 'resource': ri, 'row': pos})
                 subkeys.append('x%s%d%s' % (where, ri, pos))
+    # a step before the checkpoint failing in its own end-of-stream code (after its last resource was passed on)
+    d = os.path.join(root, 'xuppkgend')
+    try:
+        run_flow(case, d, fault=('up', 'pkg', 'end'))
+    except ProcessorError:
+        pass
+    else:
+        raise Violation('failing-step-yields-successful-run', {'where': 'up', 'resource': 'all', 'row': 'end'})
+    n_exc += 1
+    if after(d, {'raising_step': 'up', 'resource': 'all', 'row': 'end'}):
+        raise Violation('checkpoint-committed-although-a-step-failed-while-it-was-written',
+                        {'raising_step': 'up', 'resource': 'all', 'row': 'end'})
+    subkeys.append('xuppkgend')
     classes = ['resources=%d' % len(pkg), 'rows~%d' % (10 * (total // 10)), 'events~%d' % (10 * (len(events) // 10))]
     return Info(nontrivial=len(subkeys) >= 2, classes=classes, evals=n_runs + n_exc + 2, subkeys=subkeys,
                 extra={'crash_runs': n_runs, 'exception_runs': n_exc, 'io_events_recorded': len(events),
